@@ -52,6 +52,7 @@ type TASpec struct {
 	TimeoutS         int      `json:"timeout_s"`
 	SlowJobs         string   `json:"slow_jobs,omitempty"` // TAOpts.SlowJobs
 	Echo             bool     `json:"echo,omitempty"`      // stages named ECHO*: first output = first input
+	Cluster          bool     `json:"cluster,omitempty"`   // TAOpts.Cluster
 }
 
 type TreeEntry struct {
@@ -174,6 +175,7 @@ func runSpec(spec *TASpec, scratch string) *TAResult {
 		}
 	}
 	opts.SlowJobs = spec.SlowJobs
+	opts.Cluster = spec.Cluster
 	var run *TARun
 	if spec.Echo {
 		// ECHO* stages (program families): the first output is the first input, so that run-time
